@@ -1,5 +1,12 @@
 from typedpy.commons import wrap_val
-from typedpy.structures import Field, FieldMeta, NoneField, ClassReference, TypedField
+from typedpy.structures import (
+    Field,
+    FieldMeta,
+    NoneField,
+    ClassReference,
+    Structure,
+    TypedField,
+)
 from .fields import _map_to_field
 
 
@@ -22,6 +29,19 @@ def _str_for_multioption_field(instance):
     else:
         propst = ""
     return f"<{name}{propst}>"
+
+
+def _scratch_instance(instance):
+    """
+    Options are tried on a scratch structure, so that a rejected value never
+    reaches the real instance and an option's own state (e.g. an immutable
+    field that is already set) does not depend on what other options stored.
+    """
+    scratch = Structure()
+    for flag in ("_skip_validation", "_trust_supplied_values"):
+        if getattr(instance, flag, False):
+            scratch.__dict__[flag] = True
+    return scratch
 
 
 class MultiFieldWrapper:
@@ -65,7 +85,7 @@ class AllOf(MultiFieldWrapper, Field, metaclass=_JSONSchemaDraft4ReuseMeta):
     def __set__(self, instance, value):
         for field in self.get_fields():
             setattr(field, "_name", self._name)
-            field.__set__(instance, value)
+            field.__set__(_scratch_instance(instance), value)
         super().__set__(instance, value)
 
     def __str__(self):
@@ -119,10 +139,12 @@ class AnyOf(MultiFieldWrapper, Field, metaclass=_JSONSchemaDraft4ReuseMeta):
             super().__set__(instance, value)
             return
         matched = False
+        scratch = None
         for field in self.get_fields():
             setattr(field, "_name", self._name)
+            scratch = _scratch_instance(instance)
             try:
-                field.__set__(instance, value)
+                field.__set__(scratch, value)
                 matched = True
                 break
             except TypeError:
@@ -136,7 +158,7 @@ class AnyOf(MultiFieldWrapper, Field, metaclass=_JSONSchemaDraft4ReuseMeta):
                 f"{prefix}{wrap_val(value)} of type {value.__class__.__name__} did not match"
                 f" any field option. Valid types are: {valid_type_names}."
             )
-        super().__set__(instance, getattr(instance, self._name))
+        super().__set__(instance, getattr(scratch, self._name))
 
     def __str__(self):
         return _str_for_multioption_field(self)
@@ -169,7 +191,7 @@ class OneOf(MultiFieldWrapper, Field, metaclass=_JSONSchemaDraft4ReuseMeta):
         for field in self.get_fields():
             setattr(field, "_name", self._name)
             try:
-                field.__set__(instance, value)
+                field.__set__(_scratch_instance(instance), value)
                 matched += 1
             except TypeError:
                 pass
@@ -220,7 +242,7 @@ class NotField(MultiFieldWrapper, Field, metaclass=_JSONSchemaDraft4ReuseMeta):
         for field in self.get_fields():
             setattr(field, "_name", self._name)
             try:
-                field.__set__(instance, value)
+                field.__set__(_scratch_instance(instance), value)
             except TypeError:
                 pass
             except ValueError:
